@@ -21,17 +21,19 @@ if rc != 0:
 for prop in props:
     r = core.check_properties(prop)
     print(prop, "obligations", r["obligations"], "discharged", r["discharged"], "axioms", r["axioms"], "forbidden", core.forbidden_scan(only=set(core.prop_closure(prop))))
+import subprocess
 for prop in props:
-    d = os.path.join("props", prop, "check.py")
-    try:
-        spec = importlib.util.spec_from_file_location("m_" + prop, d)
-        m = importlib.util.module_from_spec(spec); spec.loader.exec_module(m)
-        if hasattr(m, "setup"):
-            m.setup()
+    # one process per property: the checks' helper modules share names (props/*/gen.py ...), which must not meet in one sys.modules
+    code = ("import sys, os, importlib.util; sys.path.insert(0, os.getcwd()); "
+            "spec = importlib.util.spec_from_file_location('m_%s', os.path.join('props', '%s', 'check.py')); "
+            "m = importlib.util.module_from_spec(spec); spec.loader.exec_module(m); "
+            "getattr(m, 'setup', lambda: None)()" % (prop, prop))
+    r = subprocess.run([sys.executable, "-c", code], stdout=subprocess.PIPE, stderr=subprocess.STDOUT, text=True)
+    if r.returncode == 0:
         print("setup", prop, "ok")
-    except Exception as e:
-        traceback.print_exc()
-        print("setup", prop, "FAILED (the check will build what it needs on demand)", e)
+    else:
+        print(r.stdout[-1500:])
+        print("setup", prop, "FAILED (the check will build what it needs on demand)")
 for v in ("plain", "asan"):
     try:
         i = build.build(v)
